@@ -110,6 +110,10 @@ def classify_fatal(returncode, stderr_text):
         else:
             detail = s.group(0)
         site = kind + ":" + (lib[0] if lib else "NO-LIBRARY-FRAME")
+        if kind == "stack-overflow":
+            # only the innermost frames are printed; the recursing function identifies the defect, whoever owns it
+            inner = [strip_templates(f[0]) for f in frames[:12] if not f[0].startswith("__asan") and not f[0].startswith("__interceptor")]
+            site = "stack-overflow:" + (inner[0] if inner else "?")
         return "SANITIZER", site, detail
     if returncode is not None and returncode < 0:
         return "SIGNAL", "signal:%d" % (-returncode), "killed by signal %d" % (-returncode)
@@ -161,7 +165,9 @@ def exec_plan(flavour, prop, lanes, describe=False, timeout=120):
                    detail=detail.group(1) if detail else "", hash=m.group(3), lanes=parse_lanes(out), notes=notes, fatal=False)
         return res
     cls, site, detail = classify_fatal(rc, err)
-    return dict(cls=cls, site=site, tags="", detail=detail, hash="", lanes=None, notes=notes, fatal=True, stderr=err[-4000:])
+    lp = re.search(r"^LANEPOS (.*)$", err, re.M)
+    lanepos = dict((kv.split("=")[0], int(kv.split("=")[1])) for kv in lp.group(1).split()) if lp else None
+    return dict(cls=cls, site=site, tags="", detail=detail, hash="", lanes=None, lanepos=lanepos, notes=notes, fatal=True, stderr=err[-4000:])
 
 
 def raw_lanes(flavour, prop, seed, idx, count=30000):
@@ -263,6 +269,9 @@ class Shrinker:
             self.lanes = {k: list(res["lanes"].get(k, [])) for k in LANES}
         else:
             self.lanes = {k: list(v) for k, v in cand.items()}
+            if res.get("lanepos"):   # a fatal run reports how much of each lane it consumed
+                for k, n in res["lanepos"].items():
+                    self.lanes[k] = self.lanes.get(k, [])[:n]
         for k in LANES:   # drop trailing zeros: a dry lane yields 0 anyway
             v = self.lanes.setdefault(k, [])
             while v and v[-1] == 0:
